@@ -123,6 +123,9 @@ pub struct MemCase {
     pub off: i16,
     /// base register used for the address
     pub base: u8,
+    /// precede the access by a 1-byte load through the same base register and offset (in the
+    /// same basic block) - only generated when that byte is itself inside a region
+    pub pre_narrow: bool,
 }
 
 fn opcode(acc: Acc, w: u8) -> u8 {
@@ -181,6 +184,9 @@ pub fn program(c: &MemCase, pkt_addr: u64) -> Option<Vec<I>> {
             if !set_base(&mut p, b, c.t, c.off as i64) {
                 return None;
             }
+            if c.pre_narrow {
+                p.push(I::new(0x71, 9, b, c.off, 0));
+            }
             p.push(I::new(opc, 8, b, c.off, 0));
             p.push(isa::mov64r(0, 8));
         }
@@ -197,6 +203,9 @@ pub fn program(c: &MemCase, pkt_addr: u64) -> Option<Vec<I>> {
             }
             if !set_base(&mut p, b, c.t, c.off as i64) {
                 return None;
+            }
+            if c.pre_narrow {
+                p.push(I::new(0x71, 9, b, c.off, 0));
             }
             match c.acc {
                 Acc::St => p.push(I::new(opc, b, 0, c.off, STORE_IMM)),
@@ -253,7 +262,7 @@ fn case_json(c: &MemCase, l: &Layout, eng: Eng, a: &Arena) -> Value {
         }
         json!({"abs": format!("{ea:#x}")})
     };
-    json!({"kind":"mem","eng":eng.name(),"acc":format!("{:?}", c.acc),"w":c.w,"off":c.off,"base":c.base,
+    json!({"kind":"mem","eng":eng.name(),"acc":format!("{:?}", c.acc),"w":c.w,"off":c.off,"base":c.base,"pre_narrow":c.pre_narrow,
            "target": match c.t { Target::Abs(ea) => rel(ea), Target::Stack(d) => json!({"rel":"stack","delta":d}) },
            "layout": {"vm": vm::kind_name(l.kind), "pkt": l.pkt_len, "mb": l.mb_len, "allowed": l.allowed}})
 }
@@ -549,14 +558,16 @@ pub fn c11_check(s: &mut Sink, c: &MemCase, l: &Layout, a: &Arena) {
 
 fn layouts(thorough: bool, with_allowed: bool) -> Vec<Layout> {
     let mut v = vec![];
-    let pk: &[usize] = if thorough { &[0, 1, 7, 8, 16, 64] } else { &[0, 7, 16] };
+    // 12 and 20: an 8-aligned address with only 4 bytes left in the region
+    let pk: &[usize] = if thorough { &[0, 1, 7, 8, 12, 16, 20, 64] } else { &[0, 7, 12, 16] };
     let mbs: &[usize] = if thorough { &[0, 8, 32] } else { &[0, 32] };
     let als: Vec<Vec<(usize, usize)>> = if !with_allowed {
         vec![vec![]]
     } else if thorough {
-        vec![vec![], vec![(64, 16)], vec![(64, 16), (80, 16)], vec![(32, 8), (128, 24)], vec![(248, 8)], vec![(100, 3)]]
+        vec![vec![], vec![(64, 16)], vec![(64, 16), (80, 16)], vec![(32, 8), (128, 24)], vec![(248, 8)], vec![(100, 3)], vec![(64, 8), (76, 8)], vec![(64, 8), (73, 8)], vec![(64, 12)]]
     } else {
-        vec![vec![], vec![(64, 16), (80, 16)], vec![(248, 8)]]
+        // adjacent ranges; a range at the very end of its buffer; two ranges 4 bytes and 1 byte apart; a 12-byte range
+        vec![vec![], vec![(64, 16), (80, 16)], vec![(248, 8)], vec![(64, 8), (76, 8)], vec![(64, 8), (73, 8)], vec![(64, 12)]]
     };
     for &p in pk {
         for &m in mbs {
@@ -622,7 +633,7 @@ pub fn run(s: &mut Sink, cranelift: bool) {
     s.meta.insert("alphabet".into(), json!({
         "accesses": "ldx/st/stx/ldabs/ldind x 1,2,4,8 bytes; xadd x 4,8 (naturally aligned only - misalignment is C18's)",
         "addresses": "per region: start+k and end+k for k in -9..=8, start+2^63; 0,1,7,8; u64::MAX-k (k<9); stack: r10+d for d in -521..=-503, -9..=8, -256",
-        "reached_as": "base register + every offset in O16 (12 values) and offset 0; base registers r6 and r7; ldabs immediate / ldind src+imm",
+        "reached_as": "base register + every offset in O16 (12 values) and offset 0; base registers r6 and r7; ldabs immediate / ldind src+imm; C11 also: the access preceded by a 1-byte load through the same base register and offset in the same basic block",
         "layouts": ls.len(),
     }));
     s.meta.insert("bound".into(), json!("one access per program (depth 1), complete product of the alphabets"));
@@ -664,10 +675,19 @@ pub fn run(s: &mut Sink, cranelift: bool) {
                         if matches!(acc, Acc::LdAbs) && (off != 0 || base != 6) {
                             continue;
                         }
-                        let c = MemCase { acc: *acc, w: *w, t: *t, off, base };
+                        let c = MemCase { acc: *acc, w: *w, t: *t, off, base, pre_narrow: false };
                         let rp = case_json(&c, l, if cranelift { Eng::Cl } else { Eng::Interp }, &a);
                         if cranelift {
                             c11_check(s, &c, l, &a);
+                            // the same access right after a 1-byte load at the same base+offset
+                            // (when that byte is inside a region and the access is wider)
+                            if *w > 1 && !matches!(acc, Acc::LdAbs | Acc::LdInd) && base == 6 {
+                                let regs: Vec<_> = regions(l, &a).into_iter().filter(|r| r.0 != "allowed").collect();
+                                if classify(*t, 1, &regs) == Expect::Inside {
+                                    let c2 = MemCase { pre_narrow: true, ..c };
+                                    c11_check(s, &c2, l, &a);
+                                }
+                            }
                         } else {
                             s.mark(idx, &format!("interp/{}@{}", acc_name(&c), where_class(&c, l, &a)), &rp);
                             c02_check(s, &c, l, &a);
@@ -698,7 +718,7 @@ pub fn replay(v: &Value) -> Vec<String> {
         "LdAbs" => Acc::LdAbs,
         _ => Acc::LdInd,
     };
-    let c = MemCase { acc, w: v["w"].as_u64().unwrap() as u8, t: target_from_json(v, &a), off: v["off"].as_i64().unwrap() as i16, base: v["base"].as_u64().unwrap() as u8 };
+    let c = MemCase { acc, w: v["w"].as_u64().unwrap() as u8, t: target_from_json(v, &a), off: v["off"].as_i64().unwrap() as i16, base: v["base"].as_u64().unwrap() as u8, pre_narrow: v["pre_narrow"].as_bool().unwrap_or(false) };
     let mut s = Sink::new("replay", Tier::Quick, 0, 1, None, None, 3600);
     if v["eng"] == "cranelift" {
         c11_check(&mut s, &c, &l, &a);
